@@ -66,6 +66,28 @@ def check(sh, doc, sseed, suite):
                     sh.violation('on', f'on:option-lost-on-{route}-route', f'PyDBML({route}, allow_properties=True) differs from the string route', case)
         finally:
             os.unlink(pth)
+    # ---------------- a leading byte order mark does not take the option away
+    if hash(text) % 2 == 0:
+        onb, err_onb = parse('\ufeff' + text, allow_properties=True)
+        sh.count('obs.option_with_bom')
+        okb = (err_on is None and err_onb is None and onb.allow_properties is True and walk.content(onb) == walk.content(on)) or \
+              (err_on is not None and err_onb is not None and type(err_onb) is type(err_on))
+        if not okb:
+            sh.violation('on', 'on:option-lost-behind-a-byte-order-mark', 'the same text with a leading U+FEFF and allow_properties=True differs', case)
+    # ---------------- columns / tables built through the API without properties own their dict
+    if hash(text) % 5 == 0:
+        from pydbml.classes import Column, Table
+        c1_, c2_ = Column('apia', 'int'), Column('apib', 'int')
+        t1_, t2_ = Table('apit'), Table('apiu')
+        c1_.properties['injected_key'] = 'x'
+        t1_.properties['injected_key'] = 'x'
+        c3_ = Column('apic', 'int')
+        sh.count('obs.api_built_property_dicts')
+        leaked = [n_ for n_, o_ in (('Column', c2_), ('Column(later)', c3_), ('Table', t2_), ('Table(later)', Table('apiv'))) if o_.properties]
+        if leaked:
+            sh.violation('on', 'on:properties-dict-shared-between-objects', f'API-built objects without properties share one dict: {leaked}', case)
+        c1_.properties.clear()
+        t1_.properties.clear()
     # ---------------- the option passed by position (documented order: source, allow_properties, ...)
     if hash(text) % 3 == 0:
         from pydbml import PyDBML
